@@ -338,6 +338,9 @@ def role_of(kinds, what):
 
 
 def run(sess):
+    global BIGW
+    BIGW = 64 if sess.tier == 'quick' else 128
+    META['bounds'] = f'every i32; big ints as {BIGW}-bit signed values with |n| < 2^{BIGW - 2}; every f64 bit pattern (NaNs, infinities, signed zeros, subnormals)'
     # (1) reflexivity
     for k in KINDS:
         def body(ob, k=k):
